@@ -865,6 +865,41 @@ def r4(chk, repo):
                              f"$*d)", m_):
                     cbs.append((c, {"k": cb.args[1]}))
     ok = len(cbs) == 1 and unparse(cbs[0][1]["k"]) == iname
+    # ... decided by abstract execution where that is possible: the request
+    # is entered under its index, and the callback the future is given
+    # takes out exactly that entry
+    try:
+        eci_ = repo.cls(ETH + "EtherCat")
+        held = []
+        futs = []
+
+        def mkfut(*a):
+            fo = Obj(None, {})
+            fo.fields["add_done_callback"] = ("hook", lambda cb, _h=held:
+                                              _h.append(cb))
+            futs.append(fo)
+            return fo
+        evx = Evaluator(repo, f._module, eci_, funcs={
+            "randint": ("hook", lambda *a: 4242),
+            "randrange": ("hook", lambda *a: 4242),
+            "Future": ("hook", mkfut)})
+        mex = evx.construct(eci_, ["eth0"], {})
+        other = Obj(None, {"_": "another request"})
+        wf = evx.getattr(mex, "wait_futures")
+        wf[5000] = other
+        mex.fields["transport"] = Obj(None, {"sendto": ("hook",
+                                                        lambda *a: None)})
+        pkx = Obj(None, {"assemble": ("hook", lambda i, *a: b"")})
+        evx.call_function(f, [mex, pkx], cls=eci_)
+        wf = evx.getattr(mex, "wait_futures")
+        entered = dict(wf) == {5000: other, 4242: futs[0]} if futs else False
+        if entered and len(held) == 1:
+            evx.call(held[0], [futs[0]])
+            ok = dict(evx.getattr(mex, "wait_futures")) == {5000: other}
+        else:
+            ok = False
+    except (Unknown, Raised, IndexError, TypeError):
+        pass
     chk.ob(rule, sym, "done-callback removes the same index", ok, f,
            "the entry is removed under the index it was inserted with")
     sym2 = ETH + "EtherCat.datagram_received"
